@@ -24,6 +24,14 @@ var pfRecoveryAny = withProfile(pfRecovery, func(p *lab.Profile) {
 	p.PContFail, p.MaxContFailRun, p.PRetry, p.PlanContMayFail, p.PGate = 30, 4, 35, true, 35
 })
 
+// pfRecoveryMany: up to four tiny plans on one Workstream, gated so that they overlap: crash points with three or more
+// plans durably Running at once (start-up recovery has to fetch and resume several plans).
+var pfRecoveryMany = withProfile(pfRecovery, func(p *lab.Profile) {
+	p.Name = "recovery-many-plans"
+	p.MaxPlans, p.MaxBlocks, p.MaxSeqs, p.MaxActs, p.MaxCheckActs = 1, 1, 2, 2, 1
+	p.PGroup, p.PGate = 15, 50
+})
+
 // constantScripts makes every action's outcome a function of the action alone: the script is one step repeated.
 func constantScripts(sc *lab.Scenario) {
 	sc.EachAction(func(r lab.Ref, a *lab.ActionSpec) {
@@ -43,6 +51,19 @@ func genCrashCase(t *rapid.T) lab.CrashCase {
 	if lab.Pct(t, 25, "anyOutcome") {
 		c.Sc = pfRecoveryAny.Gen(t)
 		c.AnyOutcome = true
+	} else if lab.Pct(t, 10, "manyPlans") {
+		// three or four tiny plans, by construction
+		n := lab.Rng(t, 3, 4, "nPlans")
+		for i := 0; i < n; i++ {
+			one := pfRecoveryMany.Gen(t)
+			if i == 0 {
+				c.Sc = one
+				c.Sc.Plans = c.Sc.Plans[:1]
+			} else {
+				c.Sc.Plans = append(c.Sc.Plans, one.Plans[0])
+			}
+		}
+		constantScripts(&c.Sc)
 	} else {
 		c.Sc = pfRecovery.Gen(t)
 		constantScripts(&c.Sc)
@@ -63,6 +84,7 @@ func genCrashCase(t *rapid.T) lab.CrashCase {
 	for i := 0; i < ns; i++ {
 		c.Second = append(c.Second, lab.Rng(t, 0, 1000, "second"))
 	}
+	c.Upgrade = lab.Pct(t, 10, "pluginUpgrade")
 	// one case in three with second crashes goes on to a third crash in the second recovery
 	if ns > 0 && lab.Pct(t, 33, "third") {
 		c.Third = append(c.Third, lab.Rng(t, 0, 1000, "thirdPoint"))
@@ -84,6 +106,12 @@ func crashSpec(id string) vprop.Spec[lab.CrashCase] {
 			}
 			if len(c.Third) > 0 {
 				res.Label("with-third-crash")
+			}
+			if c.Upgrade && id == "C09" {
+				res.Label("restart-with-upgraded-plugin-response-type")
+			}
+			if len(c.Sc.Plans) >= 3 {
+				res.Label("three-or-more-plans")
 			}
 			if c.AnyOutcome {
 				res.Label("invocation-dependent-outcomes")
